@@ -79,8 +79,9 @@ PROPS = {
         theorems=["Orbit.C05.reload_sources_tied_to_go_text", "Orbit.C05.persistence_order_tied_to_go_text", "Orbit.C05.acknowledged_survive_any_crash", "Orbit.C05.cached_heads_cover_the_log",
                   "Orbit.C05.replication_never_forgets_cached_heads", "Orbit.C05.on_fully_loaded_stores_the_cache_is_the_heads_of_the_log",
                   "Orbit.C05.limited_load_then_replication_forgot_a_branch_before_the_fix", "Orbit.C05.reload_joins_only_entries_join_accepts", "Orbit.C05.refused_ancestor_lost_the_valid_entries_above_it_before_the_fix", "Orbit.C05.replication_never_shrinks_what_the_cache_reaches",
-                  "Orbit.C05.reload_succeeds_only_over_every_cached_head", "Orbit.C05.reload_under_an_ended_context_reported_success_before_the_fix"],
-        families=[("routes", 100, 3000, 14), ("kv", 40, 1000, 12), ("reload", 40, 1000, 12), ("limit", 40, 1000, 12), ("forge", 30, 800, 10)],
+                  "Orbit.C05.reload_succeeds_only_over_every_cached_head", "Orbit.C05.reload_under_an_ended_context_reported_success_before_the_fix",
+                  "Orbit.C05.write_never_forgets_cached_heads", "Orbit.C05.write_never_shrinks_what_the_cache_reaches", "Orbit.C05.write_after_snapshot_load_forgot_later_writes_before_the_fix"],
+        families=[("routes", 100, 3000, 14), ("kv", 40, 1000, 12), ("reload", 40, 1000, 12), ("limit", 40, 1000, 12), ("forge", 30, 800, 10), ("snapshot", 40, 1000, 10)],
         corr_fields={"values", "heads", "idx", "len", "local", "remote", "load", "rev"},
         nontrivial=lambda lines: any(l.startswith("restarted ") for l in lines) and sum(1 for l in lines if l.startswith("entry ")) >= 2,
         rule="histories of writes and replications by every route with instance restarts (close everything, new instance on the same keystore and cache, Load(-1)) at PRNG-chosen moments; after every step the cached heads must cover the whole log (the crash-prefix invariant) and after every restart the identity must be the same and the recovered state must equal the pre-restart state; non-trivial = at least one restart with >= 2 entries",
@@ -336,7 +337,7 @@ MANIFEST_TEXT = {
         note="Trusted: Lean kernel + standard axioms; content addressing (HashDet); the mapping from wire-form mutations to the model's flags is measured by the harness with the real Verify / re-encode.",
         technique="Lean 4 proof (Join adds only acceptable entries; monotonicity) with differential correspondence on tampered entries"),
     "C05": dict(
-        text="Kernel-checked theorem over explicit persistence-effect traces: for every valid history and EVERY prefix of its effect trace (every crash point), recovery returns every acknowledged write and every entry reported as replicated, only entries whose block was written, an ancestry-closed set, listed exactly as the pre-crash listing restricted to it; mechanism: the cached heads cover the log at every reachable store state. The harness restarts real instances over the same keystore and cache at random moments, compares the recovered state and identity, and evaluates 'cached heads cover the log' after every step of every scenario (the invariant from which every crash point follows). A replication round never forgets a cached head the log does not hold (proved for every store state and every batch: a store opened with Load(n) holds only part of what its cache points to); before the fix: commit F26 it did (decide-checked witness, replayed on the real store), and the limit family now lets partially loaded stores replicate and write before the final unlimited load, which must bring back everything ever listed or acknowledged. After a restart Load hands Join only entries of this log that Join accepts (proved), so a refused entry in the ancestry no longer costs the valid entries above it (finding F29, fix: commit, decide-checked witness); the forge family (forged, tampered, foreign entries behind colluding writers) restarts its replicas and is run under this property's recover predicate too. A reload succeeds only if every cached head came back from the fetcher (proved); before the fix: commit F32 a Load whose context had ended reported success over an empty log (decide-checked witness; the reload family restarts replicas under an ended context and requires the error).",
+        text="Kernel-checked theorem over explicit persistence-effect traces: for every valid history and EVERY prefix of its effect trace (every crash point), recovery returns every acknowledged write and every entry reported as replicated, only entries whose block was written, an ancestry-closed set, listed exactly as the pre-crash listing restricted to it; mechanism: the cached heads cover the log at every reachable store state. The harness restarts real instances over the same keystore and cache at random moments, compares the recovered state and identity, and evaluates 'cached heads cover the log' after every step of every scenario (the invariant from which every crash point follows). A replication round never forgets a cached head the log does not hold (proved for every store state and every batch: a store opened with Load(n) holds only part of what its cache points to); before the fix: commit F26 it did (decide-checked witness, replayed on the real store), and the limit family now lets partially loaded stores replicate and write before the final unlimited load, which must bring back everything ever listed or acknowledged. After a restart Load hands Join only entries of this log that Join accepts (proved), so a refused entry in the ancestry no longer costs the valid entries above it (finding F29, fix: commit, decide-checked witness); the forge family (forged, tampered, foreign entries behind colluding writers) restarts its replicas and is run under this property's recover predicate too. A reload succeeds only if every cached head came back from the fetcher (proved); before the fix: commit F32 a Load whose context had ended reported success over an empty log (decide-checked witness; the reload family restarts replicas under an ended context and requires the error). A local write never forgets a cached local head the log does not hold and never shrinks what the cache reaches (proved for every store state); before the fix: commit F33 a write on a store that had loaded an older snapshot replaced _localHeads by the new entry alone and the acknowledged writes made after the snapshot were gone at the next restart (decide-checked witness; the snapshot family writes after loading an older snapshot and restarts).",
         note="Partial where the truth is in the runtime: durability/atomicity of each datastore call is the property's own assumption; leveldb is replaced by in-memory datastores; crash points are covered by the theorem plus the per-step invariant check rather than by killing processes.",
         technique="Lean 4 proof (effect-trace prefixes, durable-log invariant) with differential correspondence including restarts"),
     "C02": dict(
